@@ -393,9 +393,9 @@ pub fn lines_main(a: &Args) {
             let word = format!("{}wq{}", match *k { "prose" => "pz", "dir" => "dz", _ => "fz" }, ["a", "b", "c", "d", "e", "f"][i % 6]);
             text.push_str(lead);
             match *k {
-                "bt" => { want_at.push((usize::MAX, String::new())); text.push_str("```"); }
-                "tl" => { want_at.push((usize::MAX, String::new())); text.push_str("~~~"); }
-                _ => { want_at.push((text.chars().count(), word.clone())); text.push_str(&word); }
+                "prose" | "dir" => { want_at.push((text.chars().count(), word.clone())); text.push_str(&word); }
+                f => { want_at.push((usize::MAX, String::new()));
+                       text.push_str(match f { "bt" => "```", "tl" => "~~~", "bt4" => "````", "tl4" => "~~~~", "bti" => "```rust", _ => "~~~text" }); }
             }
             text.push('\n');
         }
